@@ -1,9 +1,92 @@
-"""Replay of failed obligations against the real code (go test -overlay in /repo's workspace)."""
+"""Replay of failed obligations against the real code.
+
+A replay never decides a pass: it is run only after an obligation failed, to find a concrete failing input.
+Everything is run with `go test -overlay` from /repo's workspace, with GOWORK pointing at a scratch copy of
+go.work (absolute paths) so that nothing under /repo is written.
+"""
 import json
 import os
+import re
+import shutil
+import subprocess
+import tempfile
+
+import replaygen
+
+KERNEL_WITNESS = [
+    (r"^\(\*observerImpl\)|^\(\*subscriberImpl\)|^newSubscriberImpl|^NewSubscriberWithConcurrencyMode|^\(\*observableImpl\)", "TestWitnessGate", "gate"),
+    (r"^\(\*subscriptionImpl\)|^execFinalizer|^NewSubscription", "TestWitnessSubscription", "subscription"),
+    (r"SubjectImpl\)", "TestWitnessSubjects", "subject"),
+    (r"^ShareWithConfig|^\(\*connectableObservableImpl\)", "TestWitnessShare", "share"),
+]
 
 
-def attempt(pid, ob, res, path, repo, root, seed):
+def scratch_gowork(repo):
+    d = tempfile.mkdtemp(prefix="rovc-replay-")
+    out = []
+    for line in open(os.path.join(repo, "go.work")):
+        m = re.match(r"^(\s*(?:use\s+)?)(\.[^\s)]*)\s*$", line.rstrip("\n"))
+        if m and not line.strip().startswith("//"):
+            out.append(m.group(1) + os.path.normpath(os.path.join(repo, m.group(2))))
+        else:
+            out.append(line.rstrip("\n"))
+    with open(os.path.join(d, "go.work"), "w") as f:
+        f.write("\n".join(out) + "\n")
+    sumf = os.path.join(repo, "go.work.sum")
+    if os.path.exists(sumf):
+        shutil.copy(sumf, os.path.join(d, "go.work.sum"))
+    return d
+
+
+def run_overlay(repo, files, run_pattern, pkg_dir=".", timeout=120, race=False):
+    """files: {name in package dir: source text}. Returns (output, fail_lines)."""
+    d = scratch_gowork(repo)
+    try:
+        replace = {}
+        for name, src in files.items():
+            p = os.path.join(d, name)
+            with open(p, "w") as f:
+                f.write(src)
+            replace[os.path.join(repo, pkg_dir, name)] = p
+        ov = os.path.join(d, "ov.json")
+        with open(ov, "w") as f:
+            json.dump({"Replace": replace}, f)
+        env = dict(os.environ)
+        env.update({"GOFLAGS": "", "GOWORK": os.path.join(d, "go.work"), "GOPROXY": "off", "GOSUMDB": "off", "GOTOOLCHAIN": "local"})
+        cmd = ["go", "test", "-overlay", ov, "-vet=off", "-count=1", "-v", "-timeout", "%ds" % timeout, "-run", run_pattern]
+        if race:
+            cmd.append("-race")
+        cmd.append(".")
+        try:
+            r = subprocess.run(cmd, cwd=os.path.join(repo, pkg_dir), env=env, capture_output=True, text=True, timeout=timeout + 30)
+            out = r.stdout + r.stderr
+        except subprocess.TimeoutExpired as e:
+            out = "TIMEOUT after %ss\n%s" % (timeout, (e.stdout or b"").decode() if isinstance(e.stdout, bytes) else (e.stdout or ""))
+        fails = [l for l in out.splitlines() if l.startswith("REPLAY-FAIL")]
+        return out, fails
+    finally:
+        shutil.rmtree(d, ignore_errors=True)
+
+
+def _write(path, rec):
+    os.makedirs(os.path.dirname(path), exist_ok=True)
+    with open(path, "w") as f:
+        json.dump(rec, f, indent=1)
+
+
+def operator_of(ob):
+    """The operator (top-level function) an obligation is about."""
+    name = ob["name"]
+    if ob.get("layer") == "M":
+        return ob.get("func") or name.split("/")[0]
+    if ob.get("layer") == "P":
+        parts = name.split("/")
+        if len(parts) >= 2:
+            return parts[1].split("#")[0]
+    return None
+
+
+def attempt(pid, ob, res, path, repo, root, seed, gen=None):
     """Try to reproduce a failed obligation on the real code. Returns True when a failing input was found."""
     rec = {
         "property": pid,
@@ -11,24 +94,127 @@ def attempt(pid, ob, res, path, repo, root, seed):
         "clause": ob.get("clause"),
         "function": ob.get("func"),
         "position": ob.get("pos"),
+        "note": ob.get("note"),
         "status": res["status"],
         "solver": res.get("solver"),
         "solver_answers": res.get("answers"),
         "solver_output": res.get("model"),
         "replayed": False,
-        "note": "no replay generator is registered for this obligation class",
+        "failing_input": None,
     }
-    with open(path, "w") as f:
-        json.dump(rec, f, indent=1)
-    return False
+    found = False
+    try:
+        op = operator_of(ob)
+        descs = {d["op"]: d for d in ((gen or {}).get("replay_descs") or [])}
+        if op and op not in descs and gen is not None:
+            # the descriptor may belong to a contract not tagged with this property: ask rovc for it
+            descs.update(_desc_for(repo, root, op))
+        if op and op in descs:
+            d = descs[op]
+            src, done = replaygen.gen_file([d], max_len=4)
+            if done:
+                out, fails = run_overlay(repo, {"zz_rovc_replay_test.go": src}, "TestRovcReplay_" + op + "$")
+                rec["replay_kind"] = "operator contract machine vs real operator, all scripts up to length 4 over {0,1,2} x {complete,error,unsubscribe}, every small parameter value"
+                rec["replay_test"] = src
+                rec["replay_output"] = out[-6000:]
+                if fails:
+                    found = True
+                    rec["failing_input"] = fails[:5]
+            else:
+                rec["replay_note"] = "operator %s cannot be driven by the generic harness: %s" % (op, d.get("why"))
+        elif ob.get("layer") == "K":
+            fn = ob.get("func") or ob["name"].split("/")[0]
+            for pat, test, kind in KERNEL_WITNESS:
+                if re.search(pat, fn):
+                    files = {
+                        "zz_rovc_witness_test.go": open(os.path.join(root, "witness", "kernel_witness_test.go")).read(),
+                        "zz_rovc_witness2_test.go": open(os.path.join(root, "witness", "subject_witness_test.go")).read(),
+                    }
+                    out, fails = run_overlay(repo, files, test + "$")
+                    rec["replay_kind"] = "bounded witness %s (%s): every operation sequence up to a small bound against the reference definition" % (test, kind)
+                    rec["replay_output"] = out[-6000:]
+                    if fails:
+                        found = True
+                        rec["failing_input"] = fails[:5]
+                    break
+            else:
+                rec["replay_note"] = "no witness registered for " + fn
+        else:
+            rec["replay_note"] = "no replay generator for this obligation (site without an executable contract machine)"
+    except Exception as e:  # a broken replay must never hide the violation
+        rec["replay_error"] = repr(e)
+    rec["replayed"] = found
+    _write(path, rec)
+    return found
+
+
+def _desc_for(repo, root, op):
+    tmp = tempfile.mkdtemp(prefix="rovc-desc-")
+    try:
+        out = os.path.join(tmp, "d.json")
+        r = subprocess.run([os.path.join(root, "bin", "rovc"), "gen", "-repo", repo, "-layers", "M", "-only", op, "-o", out], capture_output=True, text=True)
+        if r.returncode != 0:
+            return {}
+        with open(out) as f:
+            g = json.load(f)
+        return {d["op"]: d for d in (g.get("replay_descs") or []) if d["op"] == op}
+    finally:
+        shutil.rmtree(tmp, ignore_errors=True)
 
 
 def rerun(path):
     with open(path) as f:
         rec = json.load(f)
-    print(json.dumps({k: rec.get(k) for k in ("property", "obligation", "clause", "status", "replayed")}, indent=1))
+    print("obligation:", rec.get("obligation"))
+    print("clause:    ", rec.get("clause"))
+    print("status:    ", rec.get("status"), "by", rec.get("solver"))
+    if rec.get("failing_input"):
+        for l in rec["failing_input"]:
+            print(l)
+    src = rec.get("replay_test")
+    if src:
+        repo = os.environ.get("VERIF_REPO", "/repo")
+        m = re.search(r"func (TestRovcReplay_\w+)\(", src)
+        out, fails = run_overlay(repo, {"zz_rovc_replay_test.go": src}, (m.group(1) if m else "TestRovcReplay") + "$")
+        for l in fails[:10]:
+            print(l)
+        print("replay now:", "FAILS" if fails else "passes")
+        return 1 if fails else 0
+    print("solver output:\n", (rec.get("solver_output") or "")[:2000])
     return 1 if rec.get("replayed") else 0
 
 
+def spec_validation(gen, repo, known_ops=()):
+    """Thorough tier: run every executable contract machine against the real operator. Returns (ops, mismatches)."""
+    descs = [d for d in (gen.get("replay_descs") or []) if d.get("interpretable")]
+    if not descs:
+        return [], []
+    src, done = replaygen.gen_file(descs, max_len=4)
+    out, fails = run_overlay(repo, {"zz_rovc_replay_test.go": src}, "TestRovcReplay_", timeout=300)
+    return done, fails
+
+
 def bounded_fallback(pid, repo, root, seed, lines):
-    return False
+    """When contracts stopped binding (UNDECIDED), run the bounded witnesses of the property as a search for a
+    concrete failing input. Returns True when one was found."""
+    tests = {
+        "C01": "TestWitnessGate|TestWitnessSubjects", "C02": "TestWitnessGate", "C03": "TestWitnessSubscription|TestWitnessGate",
+        "C06": "TestWitnessGate|TestWitnessSubscription", "C07": "TestWitnessGate|TestWitnessSubscription",
+        "C10": "TestWitnessSubjects", "C11": "TestWitnessShare",
+    }.get(pid)
+    if not tests:
+        return False
+    try:
+        files = {
+            "zz_rovc_witness_test.go": open(os.path.join(root, "witness", "kernel_witness_test.go")).read(),
+            "zz_rovc_witness2_test.go": open(os.path.join(root, "witness", "subject_witness_test.go")).read(),
+        }
+        out, fails = run_overlay(repo, files, tests)
+    except Exception:
+        return False
+    if not fails:
+        return False
+    rp = os.path.join(root, "replays", pid, "bounded-witness.json")
+    _write(rp, {"property": pid, "obligation": "bounded witness after UNDECIDED obligations", "failing_input": fails[:10], "replay_output": out[-6000:], "replayed": True})
+    lines.append("VIOLATION property=%s replay=%s" % (pid, rp))
+    return True
